@@ -14,7 +14,7 @@ from . import C01, C02, C05
 PROPERTY = "C19"
 LEVEL = "fault_enumeration"
 TIMEOUT = 900
-BUDGET = {"quick": 600, "thorough": 3000}
+BUDGET = {"quick": 600, "thorough": 3600}
 RULE = ("Fault enumeration over sources of run-to-run variation: each program (generated expression DAGs, bundles, "
         "multi-merge balanced-loader patterns, and the repository's own example_programs/*.facto; "
         "memories, latches, user entities, implicit signals, unknown-to-draftsman state) is compiled by the real "
